@@ -778,6 +778,7 @@ class cfp(exp):
 
     def __init__(self, v, size=32):
         self.size = size
+        self.sf = False
         self.v = float(v)
 
     @property
